@@ -254,11 +254,32 @@ func c06naSplit(s string) string {
 }
 
 // the answers of the real library about one string
-func c06naOnString(out *vlib.Out, s string) {
-	if !utf8.ValidString(s) || strings.ContainsAny(s, "\n\r") {
-		out.Count("netaddr:skipped-not-utf8-or-newline")
-		return
+// c06naLine picks the line family for a string: a string that is not valid UTF-8 (or holds a line break) goes to
+// the byte reading of the model (`netaddrb|` / `cadmitb|`: CJ.NetAddrBytes), a valid one to the character reading
+// and, one in eight (by its bytes, so that a replay takes the same way), to both.
+func c06naLine(out *vlib.Out, fam string, ss ...string) (chars, bytes bool) {
+	sum, valid := 0, true
+	for _, s := range ss {
+		if !utf8.ValidString(s) || strings.ContainsAny(s, "\n\r") {
+			valid = false
+		}
+		for i := 0; i < len(s); i++ {
+			sum += int(s[i])
+		}
 	}
+	if !valid {
+		out.Count(fam + "b:not-utf8-or-newline")
+		return false, true
+	}
+	if sum%8 == 3 {
+		out.Count(fam + "b:valid-utf8-sampled")
+		return true, true
+	}
+	return true, false
+}
+
+func c06naOnString(out *vlib.Out, s string) {
+	chars, bytes := c06naLine(out, "netaddr", s)
 	var sb strings.Builder
 	a, err := netip.ParseAddr(s)
 	switch {
@@ -310,7 +331,12 @@ func c06naOnString(out *vlib.Out, s string) {
 	default:
 		sb.WriteString(";res=name")
 	}
-	out.Case("netaddr|s|"+c06Hex(s), sb.String(), err == nil || sp != "E")
+	if chars {
+		out.Case("netaddr|s|"+c06Hex(s), sb.String(), err == nil || sp != "E")
+	}
+	if bytes {
+		out.Case("netaddrb|s|"+c06Hex(s), sb.String(), err == nil || sp != "E")
+	}
 }
 
 func c06naOnIP(out *vlib.Out, b []byte) {
@@ -337,16 +363,19 @@ func c06naOnIP(out *vlib.Out, b []byte) {
 }
 
 func c06naOnContains(out *vlib.Out, cidr string, b []byte) {
-	if !utf8.ValidString(cidr) {
-		return
-	}
+	chars, bytes := c06naLine(out, "netaddr", cidr)
 	_, n, err := net.ParseCIDR(cidr)
 	ans := "E"
 	if err == nil {
 		ans = vlib.B(n.Contains(net.IP(b)))
 		out.Count("netaddr:Contains-" + ans)
 	}
-	out.Case("netaddr|con|"+c06Hex(cidr)+"|"+c06naHexB(b), ans, err == nil)
+	if chars {
+		out.Case("netaddr|con|"+c06Hex(cidr)+"|"+c06naHexB(b), ans, err == nil)
+	}
+	if bytes {
+		out.Case("netaddrb|con|"+c06Hex(cidr)+"|"+c06naHexB(b), ans, err == nil)
+	}
 }
 
 // a random CIDR in one of the textual forms ParseCIDR accepts (and some it does not)
@@ -479,16 +508,22 @@ func c06naList(l []string) string {
 
 // one admission decided from text: real ParseBlocklists + ParseOrResolveBlocklisted against CJ.CovertLit.admitLit
 func c06naAdmit(out *vlib.Out, block, allow []string, provided string) {
-	if !utf8.ValidString(provided) || strings.ContainsAny(provided, "\n\r") {
-		out.Count("cadmit:skipped-not-utf8-or-newline")
-		return
-	}
+	chars, bytes := c06naLine(out, "cadmit", provided)
 	replay := "c06na|" + c06naList(block) + "|" + c06naList(allow) + "|" + c06Hex(provided) + "\n"
 	line := "cadmit|" + c06naList(block) + "|" + c06naList(allow) + "|" + c06Hex(provided)
+	lineB := "cadmitb|" + strings.TrimPrefix(line, "cadmit|")
+	emit := func(ans string, nontrivial bool) {
+		if chars {
+			out.Case(line, ans, nontrivial)
+		}
+		if bytes {
+			out.Case(lineB, ans, nontrivial)
+		}
+	}
 	conf := &RegConfig{CovertBlocklistSubnets: append([]string(nil), block...), CovertAllowlistSubnets: append([]string(nil), allow...)}
 	if err := conf.ParseBlocklists(); err != nil {
 		out.Count("cadmit:configuration-refused")
-		out.Case(line, "badcidr", false)
+		emit("badcidr", false)
 		return
 	}
 	// a host name that the call would resolve is outside this line (the resolver's answer is not text)
@@ -497,13 +532,13 @@ func c06naAdmit(out *vlib.Out, block, allow []string, provided string) {
 		if _, perr := strconv.ParseUint(port, 10, 16); perr == nil {
 			if _, aerr := netip.ParseAddr(host); aerr != nil {
 				out.Count("cadmit:name")
-				out.Case(line, "name", false)
+				emit("name", false)
 				return
 			}
 		}
 	}
 	got, lookup := conf.ParseOrResolveBlocklisted(provided)
-	out.Case(line, c06Hex(got)+"|"+vlib.B(lookup), got != "")
+	emit(c06Hex(got)+"|"+vlib.B(lookup), got != "")
 
 	// ---- the property, on the real answer
 	out.Checked()
@@ -685,11 +720,14 @@ func (w *c06World) netAddrPart(out *vlib.Out, r *vlib.Rand) {
 		if r.Chance(1, 5) {
 			port = c06naString(out, r)
 		}
-		if !utf8.ValidString(host) || !utf8.ValidString(port) || strings.ContainsAny(host+port, "\n\r") {
-			continue
-		}
+		chars, bytes := c06naLine(out, "netaddr", host, port)
 		j := net.JoinHostPort(host, port)
-		out.Case("netaddr|jhp|"+c06Hex(host)+"|"+c06Hex(port), c06Hex(j)+";"+c06naSplit(j), true)
+		if chars {
+			out.Case("netaddr|jhp|"+c06Hex(host)+"|"+c06Hex(port), c06Hex(j)+";"+c06naSplit(j), true)
+		}
+		if bytes {
+			out.Case("netaddrb|jhp|"+c06Hex(host)+"|"+c06Hex(port), c06Hex(j)+";"+c06naSplit(j), true)
+		}
 	}
 
 	// ---- admission decided from text
